@@ -4,7 +4,7 @@ from __future__ import annotations
 import z3
 
 from pyvc.api import A, FnSpec, LoopSpec
-from pyvc.containers import STR, SMap, SObj, SetIter
+from pyvc.containers import STR, SMap, SObj, SSet, SetIter
 from pyvc.engine import SClass
 from pyvc.values import SBool, SStr, STuple, SVal, Unsupported, as_bool, fresh_name
 
@@ -317,6 +317,40 @@ class GetFieldVals(FnSpec):
         ]
 
 
+class SchemaGetFieldVals(FnSpec):
+    """the override for schema partials: what the generic factory provides, minus the declared constants — and nothing else filtered"""
+
+    file = "schema/core.py"
+    qual = "PartialSchemas._get_field_vals"
+    props = ("C14",)
+
+    def init(self):
+        self.comps[0] = pairs_filter
+        self.inline |= {"_is_schema_field"}  # a one-line predicate of this module: read, should the filter ever be phrased through it
+
+    def setup(self, cx):
+        from pyvc.containers import MapItems
+
+        for ax in val_axioms():
+            cx.assume(ax)
+        ob = ModelObj("PartialModel", name="obj")
+        ob.fields["__constants__"] = SSet.fresh(STR, "declared_constants")
+        ob.fields["__fields__"] = SMap.fresh(STR, TVal(), "declared_fields")
+        a = A(cls=SClass("PartialSchemas"), obj=ob)
+        a.base = SMap.fresh(STR, TVal(), "provided_by_the_generic_factory")
+        a.base0 = a.base.snapshot()
+        cx.ghost["sgfv"] = a
+        return a
+
+    def ensures(self, cx, a, res):
+        if not isinstance(res, SMap):
+            return [("yields-name-value-pairs", z3.BoolVal(False), "pairs of field name and value")]
+        k = z3.String(fresh_name("sk"))
+        consts = a.obj.fields["__constants__"]
+        b = a.base0
+        return [("provided-values-minus-constants", z3.ForAll([k], z3.And(res.has(k) == z3.And(b.has(k), z3.Not(consts.has(k))), z3.Implies(res.has(k), res.get_term(k) == b.get_term(k)))), "every provided value that is not a declared constant takes part in merging — also values under names the class does not declare (extra keys, fields of a subclass carried by a parent-typed partial); constants never do")]
+
+
 def pairs_filter(interp, cx, fr, e):
     """`((k, v) for k, v in MAP.items() if P(k, v))` read as the sub-map of MAP (order is irrelevant to the callers)"""
     import ast
@@ -374,7 +408,11 @@ def build(reg):
     reg.method_bindings[("PartialFactory", "_get_field_vals")] = get_field_vals
     reg.method_bindings[("PartialModel", "copy")] = model_copy
     reg.method_bindings[("PartialModel", "cast")] = lambda cx, me, obj, **kw: obj  # cast of an instance of the same partial class is the identity (T5)
-    specs = [UpdateField(), MergeWith(), GetFieldVals()]
+    from pyvc.containers import MapItems
+
+    reg.set_class_home("PartialSchemas", "schema/core.py")
+    reg.method_bindings[("PartialSchemas", "super._get_field_vals")] = lambda cx, me, obj: MapItems(cx.ghost["sgfv"].base)  # PartialFactory._get_field_vals: its own contract (GetFieldVals)
+    specs = [UpdateField(), MergeWith(), GetFieldVals(), SchemaGetFieldVals()]
     for s in specs:
         reg.add(s)
     return {
